@@ -47,3 +47,14 @@ var (
 //@   pure
 //@ extern func (d time.Duration) String() (s string)
 //@   pure
+
+// Zone and rounding operations of time.Time: deterministic functions about which nothing is assumed (so a
+// text produced from t.UTC() or t.Truncate(d) is NOT known to be the text of t).
+//@ extern func (t time.Time) UTC() (r time.Time)
+//@   pure
+//@ extern func (t time.Time) Local() (r time.Time)
+//@   pure
+//@ extern func (t time.Time) Truncate(d time.Duration) (r time.Time)
+//@   pure
+//@ extern func (t time.Time) Round(d time.Duration) (r time.Time)
+//@   pure
